@@ -75,12 +75,11 @@ def run(rep):
                 rep.violation('%s: %s (the pinned model does not predict this)' % (c['type'], why), rp)
         diffs = corp.correspondence(proj)
         badset = {ci for ci, _, _ in bad}
-        for ci, oi in diffs[:5]:
-            if ci not in badset:
-                c = corp.cases[ci]
-                rep.violation('implementation and faithful model disagree on the child views of %s' % c['type'],
-                              {'correspondence': 'impl<->M_py (C06 projection)', 'type': c['type'], 'ops': c['ops'][:oi + 1],
-                               'impl': proj(None, corp.impl[ci][oi]), 'model': proj(None, corp.model[ci][oi])}, found_input=False)
+        broken = [(ci, oi) for ci, oi in diffs if ci not in badset][:6]
+        if broken:
+            matcher.report_broken_correspondence(rep, m, [(corp.cases[ci]['type'], corp.cases[ci]['ops'][:oi + 1]) for ci, oi in broken], sweep_failures,
+                                                 'impl<->M_py (C06 projection)',
+                                                 [{'impl': proj(None, corp.impl[ci][oi]), 'model': proj(None, corp.model[ci][oi])} for ci, oi in broken])
         # specification machines on their classes (where C06 is proved)
         sc, bc = matcher.machine_corpus(rep, m, corp.classes, 30 if quick else 200, 12 if quick else 20, rep.seed)
         if not quick:
